@@ -489,7 +489,20 @@ fn mutate_open(st: &mut State, seed: u64, n: u64, mode: u64) -> Sx {
     }));
     match r {
         Ok(s) => Sx::sym(s),
-        Err(_) => Sx::panic(),
+        Err(_) => {
+            // where did it panic?  (rust-msi itself, or a dependency such as the cfb container crate)
+            let at = crate::state::LAST_PANIC.lock().map(|g| g.clone()).unwrap_or_default();
+            let at = at.rsplit_once(':').map(|x| x.0.to_string()).unwrap_or(at);      // drop the line number
+            let site = match at.rfind("/src/") {
+                Some(i) => {
+                    let krate = at[..i].rsplit('/').next().unwrap_or("").to_string();
+                    let rest: String = at[i + 5..].chars().map(|c| if c.is_ascii_alphanumeric() || c == '.' || c == '_' { c } else { '_' }).collect();
+                    format!("{}__{}", krate.replace(|c: char| !(c.is_ascii_alphanumeric() || c == '.' || c == '_' || c == '-'), "_"), rest)
+                }
+                None => "unknown".to_string(),
+            };
+            Sx::L(vec![Sx::panic(), Sx::sym(&site)])
+        }
     }
 }
 
